@@ -8,6 +8,9 @@
 (*                                                                          *)
 (*   Add          multi_mux_manager.go:AddConnection  (table + notifyChange *)
 (*                under muxesLock)                                          *)
+(*   AddK(w)      w = TRUE: the new session is "wedged" - its peer answers   *)
+(*                pings but never accepts a stream, so it stays registered   *)
+(*                and a dial on it (session.Open) hangs                      *)
 (*   Kill(k)      the session dies (peer hangs up / ManagedMuxSession.Close)*)
 (*   Unreg(k)     multi_mux_manager.go:unregisterMux  (delete + notifyChange*)
 (*                under muxesLock)                                          *)
@@ -36,13 +39,15 @@ EXTENDS Integers, FiniteSets, TLC
 CONSTANTS N,        \* slots of the pool
           MaxSess,  \* sessions ever created
           MaxRpc,   \* calls
-          InLock    \* listener invoked inside the table lock (the code) / outside (vacuity variant)
+          InLock,   \* listener invoked inside the table lock (the code) / outside (vacuity variant)
+          MaxWedged \* sessions whose peer answers pings but never accepts a stream: alive and registered, session.Open hangs
 
 Id == 1..MaxSess
 Rpc == 1..MaxRpc
 
 VARIABLES
   sstate,    \* k -> none | live | dead | gone      (dead = died, still in the table)
+  wedged,    \* sessions that are alive but whose peer never accepts a stream (environment fault)
   table,     \* multiMuxManager.muxes
   ver,       \* number of table changes so far
   pending,   \* snapshots handed to the listener but not applied yet (only with ~InLock)
@@ -54,14 +59,14 @@ VARIABLES
   at,        \* r -> session the call is / was on (0 = none)
   sawEmpty,  \* history: no session was registered and alive at some point during call r
   killedOn   \* history: the session call r was in flight on was killed
-vars == <<sstate, table, ver, pending, connMap, eps, updated, sub, rpc, at, sawEmpty, killedOn>>
+vars == <<sstate, wedged, table, ver, pending, connMap, eps, updated, sub, rpc, at, sawEmpty, killedOn>>
 
 Live == {k \in Id : sstate[k] = "live"}
 Active == {r \in Rpc : rpc[r] \in {"pick", "on"}}
 \* history bookkeeping shared by all actions: L = the live set after the step
 Track(L) == sawEmpty' = [r \in Rpc |-> sawEmpty[r] \/ (r \in Active /\ L = {})]
 
-Init == /\ sstate = [k \in Id |-> "none"] /\ table = {} /\ ver = 0 /\ pending = {} /\ connMap = {} /\ eps = {}
+Init == /\ sstate = [k \in Id |-> "none"] /\ wedged = {} /\ table = {} /\ ver = 0 /\ pending = {} /\ connMap = {} /\ eps = {}
         /\ updated = FALSE /\ sub = [k \in Id |-> "none"] /\ rpc = [r \in Rpc |-> "idle"] /\ at = [r \in Rpc |-> 0]
         /\ sawEmpty = [r \in Rpc |-> FALSE] /\ killedOn = [r \in Rpc |-> FALSE]
 
@@ -73,43 +78,47 @@ Notify(t) == IF InLock
 Apply(p) == /\ p \in pending /\ pending' = pending \ {p}
             /\ connMap' = p.t /\ eps' = p.t /\ updated' = TRUE
             /\ sub' = [k \in Id |-> IF k \in p.t THEN sub[k] ELSE "none"]
-            /\ UNCHANGED <<sstate, table, ver, rpc, at, sawEmpty, killedOn>>
+            /\ UNCHANGED <<sstate, wedged, table, ver, rpc, at, sawEmpty, killedOn>>
 
-Add == /\ Cardinality(table) < N
+AddK(w) ==
+       /\ Cardinality(table) < N /\ (w => Cardinality(wedged) < MaxWedged)
        /\ \E k \in Id : /\ sstate[k] = "none" /\ \A j \in Id : j < k => sstate[j] # "none"
+                        /\ wedged' = IF w THEN wedged \cup {k} ELSE wedged
                         /\ sstate' = [sstate EXCEPT ![k] = "live"] /\ table' = table \cup {k}
                         /\ ver' = ver + 1 /\ Notify(table \cup {k})
                         /\ Track(Live \cup {k})
        /\ UNCHANGED <<rpc, at, killedOn>>
+Add == \E w \in BOOLEAN : AddK(w)
 Kill(k) == /\ sstate[k] = "live" /\ sstate' = [sstate EXCEPT ![k] = "dead"]
            /\ killedOn' = [r \in Rpc |-> killedOn[r] \/ (rpc[r] = "on" /\ at[r] = k)]
            /\ Track(Live \ {k})
-           /\ UNCHANGED <<table, ver, pending, connMap, eps, updated, sub, rpc, at>>
+           /\ UNCHANGED <<wedged, table, ver, pending, connMap, eps, updated, sub, rpc, at>>
 Unreg(k) == /\ sstate[k] = "dead" /\ sstate' = [sstate EXCEPT ![k] = "gone"] /\ table' = table \ {k}
             /\ ver' = ver + 1 /\ Notify(table \ {k}) /\ Track(Live)
-            /\ UNCHANGED <<rpc, at, killedOn>>
+            /\ UNCHANGED <<wedged, rpc, at, killedOn>>
 
 Connect(k) == /\ k \in eps /\ sub[k] \in {"none", "failed"}
+              /\ ~(k \in wedged /\ sstate[k] = "live")          \* the dial hangs inside session.Open until the session dies
               /\ sub' = [sub EXCEPT ![k] = IF k \in connMap /\ sstate[k] = "live" THEN "ready" ELSE "failed"]
               /\ (sub'[k] # sub[k])
-              /\ UNCHANGED <<sstate, table, ver, pending, connMap, eps, updated, rpc, at, sawEmpty, killedOn>>
+              /\ UNCHANGED <<sstate, wedged, table, ver, pending, connMap, eps, updated, rpc, at, sawEmpty, killedOn>>
 Notice(k) == /\ sub[k] = "ready" /\ sstate[k] # "live" /\ sub' = [sub EXCEPT ![k] = "failed"]
-             /\ UNCHANGED <<sstate, table, ver, pending, connMap, eps, updated, rpc, at, sawEmpty, killedOn>>
+             /\ UNCHANGED <<sstate, wedged, table, ver, pending, connMap, eps, updated, rpc, at, sawEmpty, killedOn>>
 
 \* calls are issued only after the first UpdateState (before it gRPC waits for the resolver)
 RpcStart(r) == /\ rpc[r] = "idle" /\ updated /\ rpc' = [rpc EXCEPT ![r] = "pick"]
                /\ sawEmpty' = [sawEmpty EXCEPT ![r] = (Live = {})]
-               /\ UNCHANGED <<sstate, table, ver, pending, connMap, eps, updated, sub, at, killedOn>>
+               /\ UNCHANGED <<sstate, wedged, table, ver, pending, connMap, eps, updated, sub, at, killedOn>>
 RpcPick(r, k) == /\ rpc[r] = "pick" /\ sub[k] = "ready"
                  /\ IF sstate[k] = "live" THEN rpc' = [rpc EXCEPT ![r] = "on"] /\ at' = [at EXCEPT ![r] = k] /\ UNCHANGED sub
                     ELSE sub' = [sub EXCEPT ![k] = "failed"] /\ UNCHANGED <<rpc, at>>     \* nothing sent: retried
-                 /\ UNCHANGED <<sstate, table, ver, pending, connMap, eps, updated, sawEmpty, killedOn>>
+                 /\ UNCHANGED <<sstate, wedged, table, ver, pending, connMap, eps, updated, sawEmpty, killedOn>>
 RpcFailFast(r) == /\ rpc[r] = "pick" /\ \A k \in eps : sub[k] = "failed"
                   /\ rpc' = [rpc EXCEPT ![r] = "unavail"]
-                  /\ UNCHANGED <<sstate, table, ver, pending, connMap, eps, updated, sub, at, sawEmpty, killedOn>>
+                  /\ UNCHANGED <<sstate, wedged, table, ver, pending, connMap, eps, updated, sub, at, sawEmpty, killedOn>>
 RpcDone(r) == /\ rpc[r] = "on"
               /\ rpc' = [rpc EXCEPT ![r] = IF sstate[at[r]] = "live" THEN "ok" ELSE "unavail"]
-              /\ UNCHANGED <<sstate, table, ver, pending, connMap, eps, updated, sub, at, sawEmpty, killedOn>>
+              /\ UNCHANGED <<sstate, wedged, table, ver, pending, connMap, eps, updated, sub, at, sawEmpty, killedOn>>
 
 Internal == (\E k \in Id : Unreg(k) \/ Connect(k) \/ Notice(k)) \/ (\E p \in pending : Apply(p))
             \/ (\E r \in Rpc : RpcFailFast(r) \/ \E k \in Id : RpcPick(r, k))
@@ -129,6 +138,6 @@ ServedByLive == \A r \in Rpc : /\ (rpc[r] = "on" => at[r] \in Id /\ sstate[at[r]
                                /\ (rpc[r] = "ok" => at[r] \in Id /\ sstate[at[r]] # "none" /\ ~killedOn[r])
 UnavailOnlyIfEmpty == \A r \in Rpc : rpc[r] = "unavail" => (sawEmpty[r] \/ killedOn[r])
 \* resumption: when gRPC has nothing left to do, every registered live session is a ready subconn
-Resumable == (pending = {} /\ ~ENABLED Internal) => \A k \in Live : sub[k] = "ready"
+Resumable == (pending = {} /\ ~ENABLED Internal) => \A k \in Live \ wedged : sub[k] = "ready"
 NoStaleReady == (pending = {} /\ ~ENABLED Internal) => \A k \in Id : sub[k] = "ready" => k \in Live
 =============================================================================
